@@ -538,7 +538,7 @@ impl Property for C04 {
         }
     }
     fn rule() -> String {
-        "pure differential oracle between library types: a generated program (as C03) is evaluated on a type A and on a partner B chosen among ALL registered types that expose the same derivatives: (i) same reference algebra (e.g. Dual3 ~ Dual<Dual<Dual>> ~ Dual<Dual2> ~ Dual2<Dual> ~ HyperHyperDual; Dual2 ~ HyperDual ~ Dual<Dual>; Dual2Vec<N> ~ HyperDualVec<N,N>; static ~ dynamic storage for every N; f32 ~ f64), inputs generated for A and mapped through the embedding table (or symmetric-by-degree when neither side contains the other), (ii) vector type vs scalar type restricted to one direction per generator group (DualVec[i] ~ Dual, Dual2Vec[i,j] / HyperDualVec[i,j] ~ HyperDual / Dual2 / Dual<Dual>). Every shared part of every node must agree within 2*32 u e (e from the reference run; u of the narrower float), and each side with the reference. One case in ten instead obtains the eight partial derivatives f .. f_ijk of a generated function R^n -> R (n <= 3, generated index triple incl. repeated indices) through EVERY route the crate offers - third_partial_derivative_vec, hand-seeded HyperHyperDual, triply nested Dual, third_derivative (Dual3) and second_derivative (Dual2) when the directions coincide, second_partial_derivative (HyperDual), partial_hessian (HyperDualVec), hessian (Dual2Vec, static and dynamic), gradient (DualVec, static and dynamic), first_derivative (Dual) - and demands pairwise agreement within 2*32 u e and agreement with the reference. NDERIV of all 58 types equals the number of levels-summed orders (exhaustive). Non-trivial: the pair differs in Rust type and the compared part has order >= 2, or the pair differs in storage / width.".into()
+        "pure differential oracle between library types: a generated program (as C03) is evaluated on a type A and on a partner B chosen among ALL registered types that expose the same derivatives: (i) same reference algebra (e.g. Dual3 ~ Dual<Dual<Dual>> ~ Dual<Dual2> ~ Dual2<Dual> ~ HyperHyperDual; Dual2 ~ HyperDual ~ Dual<Dual>; Dual2Vec<N> ~ HyperDualVec<N,N>; static ~ dynamic storage for every N; f32 ~ f64), inputs generated for A and mapped through the embedding table (or symmetric-by-degree when neither side contains the other), (ii) vector type vs scalar type restricted to one direction per generator group (DualVec[i] ~ Dual, Dual2Vec[i,j] / HyperDualVec[i,j] ~ HyperDual / Dual2 / Dual<Dual>). Every shared part of every node must agree within 2*32 u e (e from the reference run; u of the narrower float), and each side with the reference. One case in ten instead obtains the eight partial derivatives f .. f_ijk of a generated function R^n -> R (n <= 3, generated index triple incl. repeated indices) through EVERY route the crate offers - third_partial_derivative_vec, hand-seeded HyperHyperDual, triply nested Dual, third_derivative (Dual3) and second_derivative (Dual2) when the directions coincide, second_partial_derivative (HyperDual), partial_hessian (HyperDualVec), hessian (Dual2Vec, static and dynamic), gradient (DualVec, static and dynamic), first_derivative (Dual) - and demands pairwise agreement within 2*32 u e and agreement with the reference. NDERIV of all 61 types equals the number of levels-summed orders (exhaustive). Non-trivial: the pair differs in Rust type and the compared part has order >= 2, or the pair differs in storage / width.".into()
     }
     fn assumptions() -> Vec<String> {
         vec!["dimensions 0..6, nesting depth <= 3".into()]
